@@ -223,7 +223,7 @@ def plan(tier, seed):
         tasks=tasks,
         run=run_task,
         rule="all statement sequences up to the depth bound over {new op on live tensors, in-place update, backward/clear_graph "
-        "on any live tensor}; every history containing a clear event is closed by L.backward() for every live L on a fresh replay; "
+        "on any live tensor, statements that raise (failed op / failed in-place update), ops through transient views, direct writes by the caller}; every history containing a clear event is closed by L.backward() for every live L on a fresh replay (retried once after an InvalidBackprop: the error must repeat); "
         "non-trivial = history with a clear event and an in-place update",
         bounds={name: {"depth": d, "alphabet": CFGS[name]} for name, d in BOUNDS[tier]},
         assumptions=[
